@@ -144,6 +144,13 @@ def check(case, ctx):
             if ka != kb:
                 diff = [x for x in ka if x not in kb][:4]
                 ctx.fail('fragments-rule-vs-explicit', [x for x in kb if x not in ka][:4], diff, **info)
+            # the reusable Fragmenter object built from the rule form yields the ions of the explicit form
+            fc = lib.call(lambda: p.Fragmenter(s_rule).fragment(['b', 'y', 'a', 'c', 'x', 'z'], [1, 2]))
+            ctx.evals += 1
+            kc = sorted((f.ion_type, f.start, f.end, f.charge, round(f.mass, 6)) for f in fc[1]) if fc[0] == 'ok' else None
+            if kc != kb:
+                ctx.fail('Fragmenter-rule-vs-explicit', [x for x in kb if kc is None or x not in kc][:4],
+                         _v(fc) if kc is None else [x for x in kc if x not in kb][:4], **info)
         # modified-residue counts
         ca = lib.call(p.count_residues, s_rule)
         cb = lib.call(p.count_residues, s_exp)
